@@ -72,6 +72,8 @@ type FuncContract struct {
 	Trusted   string // reason, if the block is assumed rather than verified
 	MayPanic  bool   // extern: may panic (arbitrary user code)
 	Returns   *Expr    // pure closure: the expression it returns (checked as ensures result == e)
+	Guards    [][2]*Expr
+	GuardSrc  []string
 	LoopWrites []*Expr  // pre-existing maps/arrays that loops of this function may write (excluded from row preservation)
 	Entry     []string // entry assumptions justified by meta-arguments (e.g. nolocks)
 }
@@ -345,6 +347,22 @@ func (cs *Contracts) LoadFile(path, pkgPath string) error {
 			cur.Recovers = true
 		case "recoverer":
 			cur.Recoverer = true
+		case "guard":
+			// guard <expr> by <lockexpr>: accesses to the object/cell/map <expr> need <lockexpr> held (C19)
+			i := strings.Index(rest, " by ")
+			if i < 0 {
+				return fmt.Errorf("%s:%d: guard X by L", path, ln)
+			}
+			e1, err := ParseExpr(strings.TrimSpace(rest[:i]))
+			if err != nil {
+				return fmt.Errorf("%s:%d: %v", path, ln, err)
+			}
+			e2, err := ParseExpr(strings.TrimSpace(rest[i+4:]))
+			if err != nil {
+				return fmt.Errorf("%s:%d: %v", path, ln, err)
+			}
+			cur.Guards = append(cur.Guards, [2]*Expr{e1, e2})
+			cur.GuardSrc = append(cur.GuardSrc, rest)
 		case "loopwrites":
 			for _, it := range splitTop(rest) {
 				e, err := ParseExpr(strings.TrimSpace(it))
